@@ -60,6 +60,13 @@ def conn_events(k: int, kind: str) -> tuple:
     if kind == "short":
         return {"carrier": "h1", "methods": [b"GET", b"GET"]}, [("data", k, h1_request(b"GET", p + b"short"))], \
             {"http:" + (p + b"short").decode(): [("recv_body",), ("gate", "g%d" % k)] + OK[1:]}
+    if kind == "stream":
+        # the response head is already out when the gate is reached; a second request is pipelined behind it
+        return {"carrier": "h1", "methods": [b"GET", b"GET"]}, \
+            [("data", k, h1_request(b"GET", p + b"stream") + h1_request(b"GET", p + b"next"))], \
+            {"http:" + (p + b"stream").decode(): [("recv_body",), ("send", {"type": "http.response.start", "status": 200, "headers": []}),
+                                                  ("gate", "g%d" % k),
+                                                  ("send", {"type": "http.response.body", "body": b"ok", "more_body": False})]}
     if kind == "stuck":
         return {"carrier": "h1", "methods": [b"GET"]}, [("data", k, h1_request(b"GET", p + b"stuck"))], \
             {"http:" + (p + b"stuck").decode(): [("recv_body",), ("gate", "never%d" % k)] + OK[1:]}
@@ -81,6 +88,7 @@ def scenarios(tier: str) -> List[Any]:
     out = []
     multis: List[tuple] = [(a,) for a in KINDS]
     multis += [(a, b) for i, a in enumerate(KINDS) for b in KINDS[i:] if not (a == b and a in ("idle", "partial"))]
+    multis += [("stream",), ("stream", "stuck"), ("idle", "stream")]
     if tier != "quick":
         multis += [("stuck", "stuck", "stuck"), ("idle", "short", "stuck"), ("h2open", "ws", "stuck"), ("short", "h2open", "h2idle"),
                    ("partial", "ws", "short")]
@@ -92,10 +100,10 @@ def scenarios(tier: str) -> List[Any]:
                 for late in LATE:
                     if late == "h2stream" and not any(k.startswith("h2") for k in ms):
                         continue
-                    if late == "pipelined" and not any(k in ("short", "idle") for k in ms):
+                    if late == "pipelined" and (not any(k in ("short", "idle") for k in ms) or "stream" in ms):
                         continue
-                    if trig == "max_requests" and (late != "none" or len(ms) > 2):
-                        continue
+                    if trig == "max_requests" and (late != "none" or len(ms) > 2 or "stream" in ms):
+                        continue  # (the pipelined request of 'stream' would itself be the over-limit request)
                     if tier == "quick" and len(ms) == 2 and late not in ("none", "connect"):
                         continue
                     out.append((engine, trig, ms, late))
@@ -119,7 +127,7 @@ def build(params: Any) -> tuple:
         opts, evs, a = conn_events(k, kind)
         apps.update(a)
         sources.append((f"c{k}", [("connect", k, opts)] + evs))
-        if kind in ("short", "h2open"):
+        if kind in ("short", "h2open", "stream"):
             releases.append(("release", "g%d" % k))
         if kind not in ("partial",):
             n_requests += 1
@@ -228,7 +236,15 @@ def oracle(w: Any, params: Any) -> List[dict]:
             # instant the shutdown may not have reached the connection yet and it is closed as an idle one)
             if inst is not None and inst.seq <= ti < rel_idx and t_rel > t0 and st is not None and st["ended"] and cl.h2.goaway is None:
                 out.append(V("no-goaway", kind, f"{tag}: conn {k} closed at {rec.closed_at} without GOAWAY"))
-        if kind in ("short", "h2open") and t_rel is not None and t_rel < t0 + GRACE:
+        if kind == "stream":
+            nxt = next((i for i in w.instances if i.scope.get("path", "") == "/k%dnext" % k), None)
+            first = next((i for i in w.instances if i.scope.get("path", "") == "/k%dstream" % k), None)
+            if nxt is not None and first is not None and first.seq <= ti < nxt.seq and nxt.t_start > t0 + 1e-9:
+                # (strictly later than the trigger's instant: within it the trigger may not have reached the connection yet)
+                out.append(V("served-after-shutdown", "request-behind-one-in-progress",
+                             f"{tag}: conn {k}: the request pipelined behind the one in progress at the trigger was started at "
+                             f"{nxt.t_start} (t0={t0})"))
+        if kind in ("short", "h2open", "stream") and t_rel is not None and t_rel < t0 + GRACE:
             # released inside the grace period (or before the trigger): the response must be complete
             ok = False
             if cl.h2 is not None:
@@ -238,6 +254,8 @@ def oracle(w: Any, params: Any) -> List[dict]:
                 ok = any(r["complete"] and r["body"] == b"ok" for r in cl.h1.responses)
             inst = next((i for i in w.instances if i.scope.get("path", "").startswith("/k%d" % k)), None)
             # (a request that only arrived after the trigger is not "in progress": it may be refused)
+            if kind == "stream":
+                inst = next((i for i in w.instances if i.scope.get("path", "") == "/k%dstream" % k), None)
             if inst is not None and inst.seq <= ti and not ok and (w.serve_result is not None or not ticks_left):
                 what = "incomplete"
                 if cl.h2 is not None and cl.h1 is None:
@@ -246,7 +264,7 @@ def oracle(w: Any, params: Any) -> List[dict]:
                         what = "end-stream-missing"
                 out.append(V("in-grace-request-truncated", f"{engine}:{kind}:{what}",
                              f"{tag}: conn {k} released at {t_rel}, t0={t0}: no complete response"))
-        if kind in ("stuck", "ws") or (kind in ("short", "h2open") and t_rel is None):
+        if kind in ("stuck", "ws") or (kind in ("short", "h2open", "stream") and t_rel is None):
             inst = next((i for i in w.instances if i.scope.get("path", "").startswith("/k%d" % k)), None)
             if inst is None or inst.seq > ti:
                 continue
